@@ -95,6 +95,8 @@ BoxStr = Box[str]
 TYPES = {"D1": D1, "D2": D2, "R1": R1, "R2": R2, "R3": R3, "R4": R4, "SubD1": SubD1, "BoxInt": BoxInt, "BoxStr": BoxStr}
 DEFAULTABLE = {"D1", "D2", "SubD1"}
 NAMES = list(TYPES)
+# class of an explicit default which is NOT an instance of the requested type (base class, unspecialised generic, unrelated type)
+FOREIGN_DEFAULT = {"D1": "D2", "D2": "R1", "R1": "D1", "R2": "R4", "R3": "D2", "R4": "R2", "SubD1": "D1", "BoxInt": "Box", "BoxStr": "Box"}
 
 
 def make(tname: str, uid: int):
